@@ -14,7 +14,11 @@ integer.  Exact matrices are returned as `{"re":[[num,den],…],"im":[[num,den],
   `{"lo":rat|null,"hi":rat|null,"verdict":true|false|null}` (the verified `checkLamMinLower`, `checkLamMinUpper`, `pptVerdict`);
   `"sys":0` applies the certificates to `X` itself (no transpose)
 * `c15_ball      {"n","M","thr"}`                            → `{"mirror":bool,"ineq":bool,"tr":rat,"frob2":rat}`
-* `c15_ball_eig  {"lam":[rat…],"thr"}`                       → `{"ineq":bool}` -/
+* `c15_ball_eig  {"lam":[rat…],"thr"}`                       → `{"ineq":bool}`
+* `c15_realign   {"dA","dB","X"}`                            → exact realignment `realignE X` (a `dA² × dB²` matrix)
+* `c15_ptrace    {"dA","dB","X"}`                            → `{"A": tr_B X, "B": tr_A X}` (exact marginals `ptrBE`, `ptrAE`)
+* `c15_choi_apply {"dA","dB","dO","sys","J","X"}`            → exact `partial_channel(X, J, sys, [dA, dB])` for a Choi matrix `J` of a map
+  from the `sys`-th party to `dO × dO` matrices (`choiApplyA` for `sys = 1`, `choiApplyB` for `sys = 2`) -/
 open Lean Toq.Sep EMat
 
 namespace Toq.Driver.C15
@@ -102,8 +106,38 @@ def hBallEig : Handler := fun j => do
   if thr ≤ 0 then return reject "NonPositiveThreshold"
   return Json.mkObj [("ineq", Json.bool (inSepBallEig thr lam))]
 
+def hRealign : Handler := fun j => do
+  let dA ← getNat j "dA"
+  let dB ← getNat j "dB"
+  if dA == 0 || dB == 0 then return reject "ZeroDim"
+  let X ← getEMat j "X" (dA * dB) (dA * dB)
+  return ematJson (realignE X)
+
+def hPtrace : Handler := fun j => do
+  let dA ← getNat j "dA"
+  let dB ← getNat j "dB"
+  if dA == 0 || dB == 0 then return reject "ZeroDim"
+  let X ← getEMat j "X" (dA * dB) (dA * dB)
+  return Json.mkObj [("A", ematJson (ptrBE X)), ("B", ematJson (ptrAE X))]
+
+def hChoiApply : Handler := fun j => do
+  let dA ← getNat j "dA"
+  let dB ← getNat j "dB"
+  let dO ← getNat j "dO"
+  let sys ← getNat j "sys"
+  if dA == 0 || dB == 0 || dO == 0 then return reject "ZeroDim"
+  if sys != 1 && sys != 2 then return reject "BadSys"
+  let X ← getEMat j "X" (dA * dB) (dA * dB)
+  if sys == 1 then
+    let J ← getEMat j "J" (dA * dO) (dA * dO)
+    return ematJson (choiApplyA J X)
+  else
+    let J ← getEMat j "J" (dB * dO) (dB * dO)
+    return ematJson (choiApplyB J X)
+
 def handlers : List (String × Handler) :=
   [("c15_pt", hPt), ("c15_swap", hSwap), ("c15_localconj", hLocalConj), ("c15_sepmix", hSepMix),
-   ("c15_lammin", hLamMin), ("c15_ball", hBall), ("c15_ball_eig", hBallEig)]
+   ("c15_lammin", hLamMin), ("c15_ball", hBall), ("c15_ball_eig", hBallEig), ("c15_realign", hRealign),
+   ("c15_ptrace", hPtrace), ("c15_choi_apply", hChoiApply)]
 
 end Toq.Driver.C15
